@@ -533,11 +533,12 @@ func registerSetMapSeq() {
 		c.Sample("set: Add[1 2] ; Delete[1] ; All(mutate)")
 		c.Note("BFS depth %d over %d Set operations, state = key set", depth, len(ops))
 	})
-	register("C20", "seq/map", false, func(c *Ctx) {
-		type op struct {
-			name string
-			run  func(s *types.Map[int, int], m map[int]int) (string, string)
-		}
+	type op struct {
+		name string
+		run  func(s *types.Map[int, int], m map[int]int) (string, string)
+	}
+	// first < 0: the full alphabet; first >= 0: the promotion alphabet, sequences starting with that operation
+	mapUnit := func(c *Ctx, first int) {
 		var ops []op
 		for _, k := range []int{1, 2} {
 			k := k
@@ -649,57 +650,146 @@ func registerSetMapSeq() {
 				return "", ""
 			}},
 		)
-		depth := Pick(c, 4, 5)
-		// the Map's internal read/dirty split changes with the miss count: the state key
-		// includes the number of operations since the last promotion-relevant event only
-		// through the path itself, so states are deduplicated on contents + path length parity
-		seen := map[string]bool{"": true}
-		frontier := [][]int{{}}
-		var trans int64
-		for d := 0; d < depth; d++ {
-			var next [][]int
-			for _, path := range frontier {
-				for oi, o := range ops {
-					trans++
-					var key string
-					names := ""
-					for _, pi := range path {
-						names += ops[pi].name + " ; "
+		// The Map's internal read/dirty split (and its miss counter) is not observable and decides
+		// which code path the next operation takes, so states are NOT merged on contents: every
+		// operation sequence up to the depth is run on a fresh Map (an earlier version merged
+		// states with equal contents and so never reached a promoted map with a later store).
+		runPath := func(set []op, path []int) (fails []string) {
+			id := func() string {
+				names := "map: "
+				for i, pi := range path {
+					if i > 0 {
+						names += " ; "
 					}
-					id := "map: " + names + o.name
-					c.Case(id, func() []string {
-						s := &types.Map[int, int]{}
-						m := map[int]int{}
-						for _, pi := range path {
-							ops[pi].run(s, m)
+					names += set[pi].name
+				}
+				return names
+			}
+			defer func() {
+				if r := recover(); r != nil {
+					fails = append(fails, fmt.Sprintf("panic[map %s]: in case %s", strings.ReplaceAll(fmt.Sprint(r), ": ", " - "), id()))
+				}
+			}()
+			s := &types.Map[int, int]{}
+			m := map[int]int{}
+			var got, want string
+			for _, pi := range path {
+				got, want = set[pi].run(s, m)
+			}
+			o := set[path[len(path)-1]]
+			cls := strings.SplitN(o.name, "(", 2)[0]
+			if got != want {
+				fails = append(fails, fmt.Sprintf("map-result[%s]: returned %s, reference %s (%s)", cls, got, want, id()))
+			}
+			if n := s.Len(); n != len(m) {
+				fails = append(fails, fmt.Sprintf("map-len[%s]: Len()=%d, reference has %d entries (%s)", cls, n, len(m), id()))
+			}
+			if now := render(snapshot(s)); now != render(m) || s.Len() != len(m) {
+				fails = append(fails, fmt.Sprintf("map-contents[%s]: {%s} Len=%d, reference {%s} (%s)", cls, now, s.Len(), render(m), id()))
+			}
+			return fails
+		}
+		var trans int64
+		enumerate := func(label string, set []op, depth int, first int) {
+			if c.Replay != nil {
+				// "map: a ; b ; c" names the path
+				if !strings.HasPrefix(c.Replay.Scenario, "map: ") {
+					return
+				}
+				var path []int
+				for _, name := range strings.Split(strings.TrimPrefix(c.Replay.Scenario, "map: "), " ; ") {
+					found := -1
+					for i, o := range set {
+						if o.name == name {
+							found = i
 						}
-						got, want := o.run(s, m)
-						var fails []string
-						cls := strings.SplitN(o.name, "(", 2)[0]
-						if got != want {
-							fails = append(fails, fmt.Sprintf("map-result[%s]: returned %s, reference %s (%s)", cls, got, want, id))
+					}
+					if found < 0 {
+						return // a path of the other alphabet
+					}
+					path = append(path, found)
+				}
+				c.Case(c.Replay.Scenario, func() []string { return runPath(set, path) })
+				return
+			}
+			path := make([]int, 0, depth)
+			var rec func()
+			rec = func() {
+				if len(path) > 0 {
+					trans++
+					c.Res.Execs++
+					if fails := runPath(set, path); len(fails) > 0 {
+						c.Res.Execs--
+						id := strings.SplitN(fails[0], "(map: ", 2)
+						sc := "map"
+						if len(id) == 2 {
+							sc = "map: " + strings.TrimSuffix(id[1], ")")
 						}
-						if now := render(snapshot(s)); now != render(m) || s.Len() != len(m) {
-							fails = append(fails, fmt.Sprintf("map-contents[%s]: {%s} Len=%d, reference {%s} (%s)", cls, now, s.Len(), render(m), id))
-						}
-						key = render(m)
-						return fails
-					})
-					// no deduplication below depth 3: the read/dirty promotion state is not observable
-					if key != "" && (d < 2 || !seen[key]) {
-						seen[key] = true
-						next = append(next, append(append([]int{}, path...), oi))
+						c.Case(sc, func() []string { return fails })
 					}
 				}
+				if len(path) == depth {
+					return
+				}
+				for oi := range set {
+					if len(path) == 0 && first >= 0 && oi != first {
+						continue
+					}
+					path = append(path, oi)
+					rec()
+					path = path[:len(path)-1]
+				}
 			}
-			frontier = next
+			rec()
+			c.Note("%s: every operation sequence of length 1..%d over %d Map operations, no state merging", label, depth, len(set))
 		}
-		c.Res.States += int64(len(seen))
+		if first < 0 {
+			enumerate("full alphabet (2 keys x 2 values)", ops, Pick(c, 4, 5), -1)
+			c.Res.States += trans
+			c.Res.Transitions += trans
+			c.Res.Distinct = trans
+			c.Sample("map: Store(1,10) ; LoadOrStore(1,20) ; CompareAndDelete(1,20)")
+			return
+		}
+		// deeper, over a smaller alphabet chosen around the promotion logic: a third key for misses
+		// (a miss count reaching the size of the dirty map promotes it), stores after a promotion,
+		// deletes of promoted and of dirty-only keys
+		var small []op
+		pickOp := func(name string) {
+			for _, o := range ops {
+				if o.name == name {
+					small = append(small, o)
+					return
+				}
+			}
+			panic("no such map op " + name)
+		}
+		for _, n := range []string{"Store(1,10)", "Store(2,10)", "Load(1)", "Load(2)", "Delete(1)", "Delete(2)", "LoadOrStore(2,20)", "LoadAndDelete(1)", "CompareAndDelete(2,20)", "Keys/Values", "Clear"} {
+			pickOp(n)
+		}
+		small = append(small, op{"Load(3)", func(s *types.Map[int, int], m map[int]int) (string, string) {
+			v, ok := s.Load(3)
+			w, wok := m[3]
+			return fmt.Sprint(v, ok), fmt.Sprint(w, wok)
+		}}, op{"Store(3,10)", func(s *types.Map[int, int], m map[int]int) (string, string) {
+			s.Store(3, 10)
+			m[3] = 10
+			return "", ""
+		}})
+		if first >= len(small) {
+			panic("map unit: no such first operation")
+		}
+		enumerate("promotion alphabet (3 keys), sequences starting with "+small[first].name, small, Pick(c, 6, 7), first)
+		c.Res.States += trans
 		c.Res.Transitions += trans
 		c.Res.Distinct = trans
-		c.Sample("map: Store(1,10) ; LoadOrStore(1,20) ; CompareAndDelete(1,20)")
-		c.Note("all operation sequences of length <=3 and BFS (deduplicated on contents) to depth %d over %d Map operations on 2 keys x 2 values", depth, len(ops))
-	})
+		c.Sample("map: Store(1,10) ; Load(3) ; Store(2,10) ; Delete(1)")
+	}
+	register("C20", "seq/map", false, func(c *Ctx) { mapUnit(c, -1) })
+	for first := 0; first < 13; first++ {
+		first := first
+		register("C20", fmt.Sprintf("seq/map-deep/%02d", first), false, func(c *Ctx) { mapUnit(c, first) })
+	}
 }
 
 // ---------- event emitter ----------
